@@ -230,7 +230,10 @@ func (cl *Client) renewTGT(s *session) error {
 		NameType:   nametype.KRB_NT_SRV_INST,
 		NameString: []string{"krbtgt", realm},
 	}
-	_, tgsRep, err := cl.TGSREQGenerateAndExchange(spn, cl.Credentials.Domain(), tgt, skey, true)
+	// Only the realm that issued a ticket can renew it. For the TGT of the client's own realm and for a cross-realm
+	// TGT issued by it that is the client's realm; a TGT obtained further along a referral chain was issued by the
+	// realm before it.
+	_, tgsRep, err := cl.TGSREQGenerateAndExchange(spn, tgt.Realm, tgt, skey, true)
 	if err != nil {
 		return krberror.Errorf(err, krberror.KRBMsgError, "error renewing TGT for %s", realm)
 	}
